@@ -214,7 +214,7 @@ class Executor(CallMixin, EvalMixin, ExprMixin, StmtMixin):
             tag = self.hread(st, a[0].ty.family, "__class__", a[0].t)
             return SV(T.Bool, z3.Or([tag == i for i in idxs] + [z3.BoolVal(False)]))
         if name == "in_re":
-            return SV(T.Bool, z3.InRe(a[0].t, self.regexes[a[1].t.as_string()]))
+            return SV(T.Bool, z3.InRe(a[0].t, R.REGEXES[a[1].t.as_string()]))
         if name == "str_at": return SV(T.Str, z3.SubString(a[0].t, a[1].t, 1))
         if name == "str_from_int": return SV(T.Str, z3.IntToStr(a[0].t))
         if name == "heap_eq":
